@@ -129,8 +129,9 @@ def run_case(c):
         L, chains_d = c['L'], c['chains']
         key = json.dumps([L, chains_d])
         nnz = sum(1 for ch in chains_d if ch[2] != 0)
+        chain_objs = hg.build_chains(chains_d)
         try:
-            graph = OpGraph.from_opchains(hg.build_chains(chains_d), L, 0)
+            graph = OpGraph.from_opchains(chain_objs, L, 0)
         except Exception:
             # construction failures belong to C05 (finding F1); the bound speaks about the MPO that exists
             return dict(failures=[], nontrivial=False, key=key)
@@ -149,6 +150,24 @@ def run_case(c):
                 fail('OpGraph.from_opchains', 'chain_count_bound', f'bond dimension {D[l]} at cut {l} exceeds the number {nnz} of chains with '
                      f'non-zero coefficient; bond dims {D}; chains={chains_d}')
                 break
+        # history: switch some couplings off on the *same* chain objects and compile again
+        live = [k for k, ch in enumerate(chains_d) if ch[2] != 0]
+        if len(live) >= 2 and not fails:
+            off = [int(k) for k in rng.choice(live, size=int(rng.integers(1, len(live))), replace=False)]
+            for k in off:
+                chain_objs[k].coeff = 0.0
+            mod = [list(ch) for ch in chains_d]
+            for k in off:
+                mod[k][2] = 0.0
+            try:
+                D2 = list(ptn.MPO.from_opgraph(qd, OpGraph.from_opchains(chain_objs, L, 0), opmap).bond_dims)
+                D3 = list(ptn.MPO.from_opgraph(qd, OpGraph.from_opchains(hg.build_chains(mod), L, 0), opmap).bond_dims)
+            except Exception:
+                return dict(failures=fails, nontrivial=True, key=key)
+            nnz2 = len(live) - len(off)
+            if any(x > nnz2 for x in D2[1:-1]) or D2 != D3:
+                fail('OpGraph.from_opchains', 'chain_count_bound', f'after setting the coefficients of chains {off} to zero on the same OpChain objects the bond '
+                     f'dimensions are {D2} ({nnz2} chains with non-zero coefficient; freshly built chains give {D3}); chains={chains_d}')
         return dict(failures=fails, nontrivial=True, key=key)
 
     if kind == 'simplify':
